@@ -514,7 +514,8 @@ func init() {
 	register(&vf.Check{
 		ID:        "C16",
 		Technique: "runtime monitor: strict independent RFC 6455 parser over all bytes accepted by a scripted transport under a real Stream, compared with the list of submissions after every write",
-		Rule: "cases = sequences of 1-40 writes: Write/AsyncWrite of text/binary (sizes {0,1,125,126,127,200,within 16 bytes of 4096..32768,65535,65536,max,random}), oversize messages, caller-built frames from AcquireFrame with and without SetPayload (text, binary, ping, pong), automatic Pongs for peer Pings, a final Close; transports accepting all/1/3/7/100 bytes per write, inline or deferred, temporarily unwritable (a second write-type call - AsyncWrite, AsyncWriteFrame, AsyncClose - a read or a flush is issued while the first write is held, and a third one during the chain's second transport write); synchronous would-block in the middle of a frame; max in {125,1000,5000,70000,default}; " +
+		Rule: "while a write is held up to two more frames are queued behind it and up to two during the chain's second transport write; one case in 150 raises the maximum to 4 MiB and writes messages of 1-2 MiB; one stream in four is a re-attached used stream, half of those after a blocking write stopped part-way; " +
+			"cases = sequences of 1-40 writes: Write/AsyncWrite of text/binary (sizes {0,1,125,126,127,200,within 16 bytes of 4096..32768,65535,65536,max,random}), oversize messages, caller-built frames from AcquireFrame with and without SetPayload (text, binary, ping, pong), automatic Pongs for peer Pings, a final Close; transports accepting all/1/3/7/100 bytes per write, inline or deferred, temporarily unwritable (a second write-type call - AsyncWrite, AsyncWriteFrame, AsyncClose - a read or a flush is issued while the first write is held, and a third one during the chain's second transport write); synchronous would-block in the middle of a frame; max in {125,1000,5000,70000,default}; " +
 			"non-trivial = a pooled frame reused for a shorter payload after a longer one, a payload-less caller-built frame, or a partial-write transport; distinct = (max, write behaviour, submission shape)",
 		Assumptions: []string{
 			"one application write at a time (overlapping writes belong to C17); a read or flush may be started while a write is held by the transport",
